@@ -305,6 +305,20 @@ CLAIMED["C19"] = dict(
         "when prefixFilterEntries stops in the middle of a page are not decided. One defect repaired (refill restarted after the first page: non-termination). " + TRUST,
    design="DESIGN.md §4 C19")
 
+CLAIMED["C33"] = dict(
+   text="Proof-level safety kernel of the clause 'decompressing arbitrary (including malformed) input never crashes the process', for every input: ungzipData, "
+        "DecompressData, MaybeDecompressData, IsGzippedContent (exact magic-byte test; input that is not gzip is handed back unchanged with UnsupportedCompression), "
+        "the HTTP read helpers of the chunk download path Get, ReadUrl, ReadUrlAsStream, ReadUrlAsReaderCloser (a gzip reader is read from and closed only if "
+        "gzip.NewReader produced one), Decrypt (nonce sliced off only after the length check) and readEncryptedUrl (the decrypted, decompressed chunk is cut to the "
+        "requested range only if long enough). Obligations are the preconditions of the library calls (reading from / closing a nil *gzip.Reader dereferences it) and "
+        "the slice bounds.",
+   note="The round trip 'fetched back as exactly the original bytes' is over gzip, AES-GCM, multipart encoding and HTTP (libraries and two processes) and is not "
+        "decided; nor are doUploadData's compression heuristics. Assumed library contracts (listed in the evidence): gzip.NewReader returns a nil reader with its "
+        "error; net/http hands out a real body; cipher.NewGCM returns an AEAD or an error; NonceSize is non-negative. The HTTP client and the callback are opaque "
+        "(nosafety on the four helpers: only the library preconditions are checked there). Two defects repaired (malformed gzip header crashed ungzipData; a "
+        "malformed gzip response body crashed all four read helpers). " + TRUST,
+   design="DESIGN.md §4 C33")
+
 NA = {
  "C03":"crash-point property over byte-level truncation of two persistent files; no per-function contract within reach decides it (DESIGN §4 C03)",
  "C10":"needs inductive tree predicates and cardinality reasoning over interface-typed nodes in pointer maps with randomised picking (DESIGN §4 C10)",
@@ -314,7 +328,6 @@ NA = {
  "C27":"recursive listing driven by gRPC stream callbacks with mutable cursor state across recursion over an external tree",
  "C28":"HTTP handlers, filer listing order and %04d formatting vs lexicographic order; string<->integer goals time out on all installed solvers",
  "C29":"containment depends on path normalisation in gorilla/mux, net/url, filepath and the filer; textual prefix contracts would be vacuous",
- "C33":"gzip/zstd/AES-GCM are libraries; the property is an I/O pipeline round trip over them",
  "C38":"a schedule (linearizability) property; the generator is sequential",
  "C39":"unbounded tree of pointer maps with recursive deletion; needs inductive heap predicates",
  "C40":"relation between the states of two processes connected by HTTP fan-out",
